@@ -33,6 +33,9 @@ struct Port {
     cursor: usize, // absolute index into the stream
     rx: Vec<u8>,
     tx_end: i64, // scaled end of own last transmission
+    /// the last few own transmissions (scaled start, end): a PHY that is deaf while it transmits loses
+    /// every byte that overlaps one of them
+    tx_recent: Vec<(i64, i64)>,
 }
 
 #[derive(Clone, Debug)]
@@ -61,6 +64,9 @@ pub struct BusSim {
     pub faults: Vec<(usize, Fault)>,
     /// scaled end of last activity, start of current
     pub last_sender: u8,
+    /// PHY model: a station does not receive bytes that overlap one of its own transmissions (receiver
+    /// disabled while the driver is enabled). Default false: it receives them corrupted.
+    pub deaf_while_transmitting: bool,
 }
 
 impl BusSim {
@@ -75,6 +81,7 @@ impl BusSim {
             busy_until: i64::MIN / 4,
             faults: vec![],
             last_sender: 255,
+            deaf_while_transmitting: false,
         }
     }
 
@@ -160,6 +167,13 @@ impl BusSim {
             self.stream.insert(pos, sb);
         }
         self.ports[id as usize].tx_end = end;
+        {
+            let p = &mut self.ports[id as usize];
+            p.tx_recent.push((start, end));
+            if p.tx_recent.len() > 6 {
+                p.tx_recent.remove(0);
+            }
+        }
         self.busy_until = self.busy_until.max(end);
         self.last_sender = id;
         self.trace.push(Tx { idx, sender: id, start_us: now_us, start, end, bytes: bytes.to_vec(), overlaps_prev, fault });
@@ -174,7 +188,11 @@ impl BusSim {
                 break;
             }
             if b.sender != id {
-                p.rx.push(b.val);
+                let bstart = b.done - 11 * BIT;
+                let lost = self.deaf_while_transmitting && p.tx_recent.iter().any(|(s, e)| bstart < *e && *s < b.done);
+                if !lost {
+                    p.rx.push(b.val);
+                }
             }
             p.cursor += 1;
         }
@@ -199,6 +217,11 @@ impl BusSim {
         let p = &mut self.ports[id as usize];
         if p.tx_end > now {
             p.tx_end = now;
+        }
+        for iv in p.tx_recent.iter_mut() {
+            if iv.1 > now {
+                iv.1 = now.max(iv.0);
+            }
         }
         let latest = self.stream.iter().map(|b| b.done).max().unwrap_or(now);
         self.busy_until = self.busy_until.min(latest.max(now));
@@ -238,6 +261,14 @@ impl BusSim {
             out.extend_from_slice(&p.rx);
             let rel = (p.tx_end - now).max(0);
             out.extend_from_slice(&rel.to_le_bytes());
+            if self.deaf_while_transmitting {
+                for (s, e) in &p.tx_recent {
+                    if *e > now - 12 * BIT {
+                        out.extend_from_slice(&(s - now).to_le_bytes());
+                        out.extend_from_slice(&(e - now).to_le_bytes());
+                    }
+                }
+            }
             for b in self.stream.iter().skip(p.cursor.saturating_sub(self.base)) {
                 if b.sender as usize != i {
                     out.push(b.val);
